@@ -3,9 +3,12 @@
    Gen_C11.src_checker is regenerated from pyxel/calibration/util.py on every run
    (_check_out_fit_ranges, FitRange2D.check, FitRange3D.check, dispatch of check_fit_ranges);
    Gen_C11.src_calls from the two calls of check_fit_ranges in ModelFittingDataTree.__init__
-   (pyxel/calibration/fitting_datatree.py): which sizes are passed as rows / cols / readout_times. *)
+   (pyxel/calibration/fitting_datatree.py): which sizes are passed as rows / cols / readout_times;
+   Gen_C11.src_fdesc from ModelFittingDataTree.fitness: the scalar attributes it keeps between calls
+   (registers), the guarded writes / break / continue / return around the accumulation, what is returned. *)
 From Coq Require Import ZArith QArith List Bool.
-From PyxelV Require Import Model.Fitness Proofs.FitnessChecker Proofs.FitnessSum Proofs.FitnessMeets.
+From PyxelV Require Import Model.Fitness Model.FitnessHist Proofs.FitnessChecker Proofs.FitnessSum Proofs.FitnessMeets
+  Proofs.FitnessHist.
 From PyxelGen Require Import Gen_C11.
 Import ListNotations.
 
@@ -297,6 +300,147 @@ Example C11_model_meets_spec_nonvacuous :
   spec_fit (ex_small 0 2) ex_small_sims = Some (OVal (15 # 1)) /\
   frame_covers (ex_small 1 3) ex_small_sims = true /\ time_2d_ok (ex_small 1 3) ex_small_sims = true /\
   spec_fit (ex_small 1 3) ex_small_sims = Some OCtor.
+Proof. vm_compute. repeat split; reflexivity. Qed.
+
+(* ------------------------------------------------------------------ histories on ONE problem object *)
+
+(* `fitness` as it is written today (regenerated description): it never leaves the loop over the
+   (processor, target) pairs early, returns the accumulator, and no command that can influence the
+   returned value reads an attribute written by an earlier call *)
+Theorem C11_src_fitness_keeps_no_state : exits_free src_fdesc = true /\ reg_blind src_fdesc = true.
+Proof. vm_compute. split; reflexivity. Qed.
+Print Assumptions C11_src_fitness_keeps_no_state.
+
+(* PURITY: for every configuration, every history of operations on one problem object (fitness of any
+   vectors in any order, repeated, on copies of the object, interleaved with other calls) and whatever
+   earlier calls left in the object's registers: every fitness in the history is the value of the
+   stateless model at THAT decision vector — a function of the vector alone *)
+Theorem C11_fitness_history_independent :
+  forall (X : Type) (simulate : X -> list frame3) c ops regs,
+    snd (run_hist simulate src_fdesc src_checker src_calls src_weights c regs ops)
+    = map (pure_obs simulate src_checker src_calls src_weights c) ops.
+Proof. intros. apply history_is_model_fit. apply C11_src_fitness_keeps_no_state. Qed.
+Print Assumptions C11_fitness_history_independent.
+
+(* ... hence the same vector is given the same fitness at any two points of any history *)
+Theorem C11_same_vector_same_fitness :
+  forall (X : Type) (simulate : X -> list frame3) c ops regs i j x oi oj,
+    nth_error ops i = Some (HFit x) -> nth_error ops j = Some (HFit x) ->
+    nth_error (snd (run_hist simulate src_fdesc src_checker src_calls src_weights c regs ops)) i = Some oi ->
+    nth_error (snd (run_hist simulate src_fdesc src_checker src_calls src_weights c regs ops)) j = Some oj ->
+    oi = oj.
+Proof. intros X simulate c. apply same_vector_same_fitness. apply C11_src_fitness_keeps_no_state. Qed.
+Print Assumptions C11_same_vector_same_fitness.
+
+(* ... and every fitness returned at any point of any history is the declared figure of merit summed
+   over ALL targets (no target without a processor: C11-zip) *)
+Theorem C11_history_fitness_is_declared :
+  forall (X : Type) (simulate : X -> list frame3) c ops regs i x o,
+    (length (fc_tgts c) <= length (simulate x))%nat ->
+    nth_error ops i = Some (HFit x) ->
+    nth_error (snd (run_hist simulate src_fdesc src_checker src_calls src_weights c regs ops)) i = Some (Some o) ->
+    o = OCtor \/ o = OUndef \/ o = fobs_of (declared_sum (term_declared c) (simulate x) (fc_tgts c)).
+Proof.
+  intros X simulate c ops regs i x o Hl Hi Ho.
+  rewrite C11_fitness_history_independent in Ho. rewrite nth_error_map, Hi in Ho. simpl in Ho.
+  inversion Ho; subst o. apply C11_fitness_is_declared. exact Hl.
+Qed.
+Print Assumptions C11_history_fitness_is_declared.
+
+(* the general statement behind it (for ANY description, e.g. one that keeps a call counter or a running
+   minimum for a log line): if no exit of the loop and no returned expression reads a register, every
+   observation of every history is what a freshly built problem returns *)
+Theorem C11_state_blind_is_pure :
+  forall (X : Type) (simulate : X -> list frame3) d c, reg_blind d = true ->
+    forall ops regs, snd (run_hist simulate d src_checker src_calls src_weights c regs ops)
+                     = map (fresh_obs simulate d src_checker src_calls src_weights c) ops.
+Proof. intros X simulate d c H. apply history_is_fresh. exact H. Qed.
+Print Assumptions C11_state_blind_is_pure.
+
+(* the judge of the history case files (every step against the history-free specification spec_fit, equal
+   vectors must get equal values, the problem's data unchanged) is met by the model: for every history over
+   vectors outside the input classes of the open findings (zip, F6d, F6e: the hypotheses of
+   C11_model_meets_spec_partial), whose identifiers name their frames, whatever the registers held, the
+   judge reports NOTHING on what the model of the source answers *)
+Theorem C11_model_history_meets_spec : forall c (ops : list (hop hx)) regs,
+  fc_bypass c = false ->
+  (forall x, In (Some x) (map op_x ops) ->
+     (length (fc_tgts c) <= length (snd x))%nat /\ frame_covers c (snd x) = true /\ time_2d_ok c (snd x) = true) ->
+  (forall x y, In (Some x) (map op_x ops) -> In (Some y) (map op_x ops) -> fst x = fst y -> snd x = snd y) ->
+  hist_violation_steps {| hc_c := c; hc_ops := ops;
+                          hc_obs := snd (run_hist (@snd nat (list frame3)) src_fdesc src_checker src_calls src_weights
+                                                  c regs ops);
+                          hc_same := true |} = [].
+Proof.
+  intros c ops regs Hb Hx Hid.
+  apply (model_history_meets_spec src_checker src_calls src_weights c (fun x => In (Some x) (map op_x ops))).
+  - intros x e Gx Hs. destruct (Hx x Gx) as (Hl & Hf & Ht).
+    apply C11_model_meets_spec_partial; assumption.
+  - exact Hid.
+  - apply C11_src_fitness_keeps_no_state.
+  - apply Forall_forall. intros o Ho. unfold op_good.
+    destruct (op_x o) as [x|] eqn:E; [|exact I].
+    rewrite <- E. apply in_map. exact Ho.
+Qed.
+Print Assumptions C11_model_history_meets_spec.
+
+(* three targets (5, 9, 4 on a 1 x 1 frame), three processors; vector g simulates the value g everywhere *)
+Definition ex_h3 : fconf :=
+  {| fc_ff := FAbs; fc_multi := false;
+     fc_trng := FR2 (Some 0, Some 1)%Z (Some 0, Some 1)%Z;
+     fc_orng := FR3 (None, None) (Some 0, Some 1)%Z (Some 0, Some 1)%Z;
+     fc_drows := 1%Z; fc_dcols := 1%Z; fc_w := WNone;
+     fc_tgts := [ [ [[Some 5]] ]; [ [[Some 9]] ]; [ [[Some 4]] ] ]; fc_bypass := false |}.
+Definition ex_sim (g : Q) : list frame3 := [ [ [[Some g]] ]; [ [[Some g]] ]; [ [[Some g]] ] ].
+
+(* non-vacuity: a history on the description of the source — a good vector (6: 1+3+2 = 6), a bad one
+   (0: 5+9+4 = 18), the good one again on a copy, another call, the bad one again *)
+Example C11_history_nonvacuous :
+  snd (run_hist ex_sim src_fdesc src_checker src_calls src_weights ex_h3 (fd_regs src_fdesc)
+                [HFit 6; HFit 0; HFitCopy 6; HNop; HFit 0])
+  = [Some (OVal 6); Some (OVal 18); Some (OVal 6); None; Some (OVal 18)].
+Proof. vm_compute. reflexivity. Qed.
+
+(* the judge is discriminating: the same history answered by the description with a remembered best and an
+   early exit is reported (step 1: the partial sum 14 is not the declared 18; step 3: the vector of step 1 now
+   gets another value), answered by the description of the source it is not *)
+Example C11_history_judge_nonvacuous :
+  let ops := [HFit (0%nat, ex_sim 6); HFit (1%nat, ex_sim 0); HFitCopy (0%nat, ex_sim 6); HFit (1%nat, ex_sim 0)] in
+  let case d := {| hc_c := ex_h3; hc_ops := ops;
+                   hc_obs := snd (run_hist (@snd nat (list frame3)) d src_checker src_calls src_weights ex_h3 (fd_regs d) ops);
+                   hc_same := true |} in
+  hist_violation_steps (case src_fdesc) = [] /\ hist_violation_steps (case ex_best_break) = [1%Z; 3%Z] /\
+  spec_fit ex_h3 (ex_sim 0) = Some (OVal 18).
+Proof. vm_compute. repeat split; reflexivity. Qed.
+
+(* the model can express what the theorems exclude.  (a) a remembered best fitness with an early exit
+   (candidates worse than the best one seen are abandoned): not register-blind; the bad vector evaluated
+   AFTER the good one carries the partial sum 5 + 9 = 14 instead of 18, evaluated first it gets 18 — the
+   same vector, two values, while the champion (6) stays exact *)
+Example ex_best_break_history :
+  reg_blind ex_best_break = false /\ exits_free ex_best_break = false /\
+  snd (run_hist ex_sim ex_best_break src_checker src_calls src_weights ex_h3 (fd_regs ex_best_break)
+                [HFit 6; HFit 0; HFit 6])
+  = [Some (OVal 6); Some (OVal 14); Some (OVal 6)] /\
+  snd (run_hist ex_sim ex_best_break src_checker src_calls src_weights ex_h3 (fd_regs ex_best_break)
+                [HFit 0; HFit 6; HFit 0])
+  = [Some (OVal 18); Some (OVal 6); Some (OVal 14)].
+Proof. vm_compute. repeat split; reflexivity. Qed.
+
+(* (b) an accumulator kept on the object and never reset: the second evaluation of a vector returns twice
+   the value *)
+Example ex_sticky_acc_history :
+  reg_blind ex_sticky_acc = false /\
+  snd (run_hist ex_sim ex_sticky_acc src_checker src_calls src_weights ex_h3 (fd_regs ex_sticky_acc) [HFit 6; HFit 6])
+  = [Some (OVal 6); Some (OVal 12)].
+Proof. vm_compute. repeat split; reflexivity. Qed.
+
+(* (c) harmless state — a call counter and a running minimum that nothing reads back: the hypotheses of
+   the general theorem hold, the registers DO change, the observations are those of the stateless model *)
+Example ex_counter_history :
+  reg_blind ex_counter = true /\ exits_free ex_counter = true /\
+  run_hist ex_sim ex_counter src_checker src_calls src_weights ex_h3 (fd_regs ex_counter) [HFit 0; HFit 6; HFitCopy 0]
+  = ([EFin 2; EFin 6], [Some (OVal 18); Some (OVal 6); Some (OVal 18)]).
 Proof. vm_compute. repeat split; reflexivity. Qed.
 
 (* ------------------------------------------------------------------ champions *)
